@@ -38,7 +38,12 @@ Inductive op :=
 | OpSpawn                             (* copy_context() / create_task(): the child starts from a snapshot *)
 | OpThread                            (* a new thread: starts from the empty context *)
 | OpMkProxy (d : pdesc)               (* local(name) / stack() *)
-| OpProxy (i : nat) (a : paccess).    (* use proxy number i *)
+| OpProxy (i : nat) (a : paccess)     (* use proxy number i *)
+| OpMwOpen                            (* LocalManager.make_middleware(app)(environ, start_response): wrap the response iterable *)
+| OpMwDrop.                           (* the last reference to such an iterable goes away / it is garbage-collected here *)
+(* closing such an iterable is OpCleanup: by the structure of make_middleware pinned in C18/Gen.v
+   (middleware_cleanup_only_on_close) the ONLY thing the middleware arranges is that close() calls
+   cleanup() in the closing context; creating or discarding the iterable schedules nothing. *)
 
 Definition truthy (x : N) : bool := N.odd x.
 
@@ -130,6 +135,11 @@ Definition step (M : methods) (w : world) (co : nat * op) : world * out :=
       match nth_error (w_prox w) i with
       | None => (w, OInvalid)
       | Some d => let '(w', r) := gco M d w c in (w', proxy_out a r)
+      end
+  | OpMwOpen | OpMwDrop =>
+      match nth_error (w_ctx w) c with
+      | None => (w, OInvalid)
+      | Some _ => (w, ONone)
       end
   end.
 
@@ -264,6 +274,11 @@ Definition sstep (w : sworld) (co : nat * op) : sworld * out :=
       match nth_error (sw_prox w) i, nth_error (sw_ctx w) c with
       | Some d, Some m => (w, proxy_spec a (bound_in m d))
       | _, _ => (w, OInvalid)
+      end
+  | OpMwOpen | OpMwDrop =>
+      match nth_error (sw_ctx w) c with
+      | None => (w, OInvalid)
+      | Some _ => (w, ONone)
       end
   end.
 
